@@ -355,6 +355,23 @@ def fam_nested(seed, dirs=("fwd", "rev")):
     return out
 
 
+def fam_unary_failing_sends(seed, dirs=("fwd", "rev")):
+    """a unary Invoke with grpc.Header / grpc.Trailer targets whose transport fails (or whose tunnel is closed, or
+    which is cancelled) exactly between two of its frames - after the new-stream frame, after the request, after
+    the half-close - held there by the carrier gates: Invoke returns the failure, and only once its targets are settled"""
+    out = []
+    for d in dirs:
+        for g in ("car.sent.c2s.new", "car.sent.c2s.msg", "car.sent.c2s.half", "cli.tx.lock"):
+            for fault in ("carfail@park", "close@park", "cancel@park"):
+                new = op("invoke", shape="unary", n=30, opts=["hdr", "trl"])
+                rs = {"rpc": 1, "c": {"m": [new]}, "s": {"m": [op("recv"), op("settrl", md=MD_POOL["t1"]), op("ret", code=0, n=4)]}}
+                step = {"carfail@park": {"do": "carfail"}, "close@park": {"do": "close"}, "cancel@park": {"do": "cancel", "rpc": 1}}[fault]
+                out.append(scenario("unaryfail-%s-%s-%s" % (g, d, fault), {"dir": d, "gates": [g]}, [rs],
+                                    {"kind": "eager", "seed": seed, "max": 400, "faults": [{"at": -2, "step": step}]},
+                                    meta={"family": "unaryfail", "done": []}))
+    return out
+
+
 def fam_stalled_close(seed, dirs=("fwd", "rev")):
     """the tunnel is closed (or stopped) while a send is stalled inside the transport (bounded carrier, nobody
     delivering): the library must end the tunnel without breaking the transport's usage contract"""
@@ -609,6 +626,8 @@ def fam_gates(seed, maxk, gates=None, dirs=("fwd", "rev"), faults=("none", "canc
                         p.update({"faults": [{"at": -2, "step": {"do": "cancel", "rpc": 1}}]})
                     elif fault == "close@park":
                         p.update({"faults": [{"at": -2, "step": {"do": "close"}}]})
+                    elif fault == "carfail@park":
+                        p.update({"faults": [{"at": -2, "step": {"do": "carfail"}}]})
                     out.append(scenario("gate-%s-%s-%s-%s-%s" % (g, wname, d, pol, fault), cfg, copy.deepcopy(rpcs), p,
                                         meta={"family": "gates", "gate": g, "done": [r["rpc"] for r in rpcs] if fault == "none" else []}))
     return out
@@ -789,7 +808,7 @@ def fam_hostile_srv(seed, n=0, dirs=("fwd", "rev"), modes=("neg", "legacy", "off
                         "meta": {"family": "hostile-srv", "deviation": "eager-before-settings"}})
         # a peer that announces an enormous message and sends only its first bytes (legal so far: the rest could
         # follow as credit is returned): the endpoint must not reserve what was merely announced
-        for announced in (1 << 28, (1 << 32) - 1):
+        for announced in (1 << 28, (1 << 31) - 1):   # (TLC integers are 32 bit signed: the monitor cannot read larger sizes)
             for shape in ("bidi", "cstream"):
                 frames = [new_frame(1, 1, shape=shape), new_frame(2, 2, shape="unary"), raw("msg", 1, size=announced, len=64)]
                 steps = copy.deepcopy(PREFIX) + [{"do": "heap"}]
